@@ -78,19 +78,24 @@ def output_important(node: CSSProperty, out: OutputStream, separator=False):
 def output_value(value: CSSValue, out: OutputStream, config: Config):
     prev_end = -1
     prev_field = False
+    prev_literal = False
     for i, token in enumerate(value.value):
         # Handle edge case: a field is written close to previous token like this: `foo${bar}`
         # or a token is written right after a field: `${1:0}s`.
-        # We should not add delimiter here
+        # We should not add delimiter here. Same for a word split into two
+        # literals by a dot: `url(a.png)`
         is_field = isinstance(token, tokens.Field)
+        is_literal = isinstance(token, tokens.Literal)
         start = getattr(token, 'start', None)
+        glued = is_field or prev_field or (is_literal and prev_literal)
 
-        if i != 0 and (not (is_field or prev_field) or start is None or start != prev_end):
+        if i != 0 and (not glued or start is None or start != prev_end):
             out.push(' ')
 
         output_token(token, out, config)
         prev_end = token.end if hasattr(token, 'end') else -1
         prev_field = is_field
+        prev_literal = is_literal
 
 def output_token(token, out: OutputStream, config: Config):
     if isinstance(token, tokens.ColorValue):
